@@ -278,8 +278,59 @@ class CondTracker(object):
                     if l is not None and l['k'] == 'ref' and l.get('dk') == 'local' and \
                             r is not None and 'v' in r and l['name'] in cnt:
                         flags.add(l['name'])
+            # locals defined as the value of a && / || chain and tested later
+            for n in fn.all_nodes():
+                src = None
+                name = None
+                if n['k'] == 'decl' and n.get('c'):
+                    name, src = n.get('name'), fn.kid(n, 0)
+                elif n['k'] == 'bin' and n.get('op') == '=':
+                    l = fn.kid(n, 0)
+                    if l is not None and l['k'] == 'ref' and l.get('dk') == 'local':
+                        name, src = l['name'], fn.kid(n, 1)
+                while src is not None and src['k'] in ('cast', 'paren'):
+                    src = fn.kid(src, 0)
+                if name and src is not None and src['k'] == 'bin' and src.get('op') in ('&&', '||') \
+                        and name in cnt:
+                    flags.add(name)
             self._tracked = set(lv for lv, c in cnt.items() if c >= 2) | flags | self.extra
         return self._tracked
+
+    def short_circuit_value(self, term, pol):
+        """the && / || expression `term` was left through operand polarity `pol` of its
+        left operand: which enclosing logical expression is thereby decided, and to what?
+        Returns (node id of the outermost decided expression, value) or None."""
+        fn = self.fn
+        if term is None or term['k'] != 'bin' or term.get('op') not in ('&&', '||'):
+            return None
+        if (term['op'] == '&&' and pol) or (term['op'] == '||' and not pol):
+            return None                 # the right operand decides
+        val = (term['op'] == '||')      # && left false -> false ; || left true -> true
+        cur = term
+        while True:
+            p = fn.parent(cur)
+            child = cur
+            while p is not None and p['k'] in ('cast', 'paren'):
+                child = p
+                p = fn.parent(p)
+            if p is None or p['k'] != 'bin' or p.get('op') not in ('&&', '||'):
+                break
+            is_left = fn.kid(p, 0) is child
+            if p['op'] == '&&':
+                if not val:
+                    cur = p             # false operand makes the && false
+                    continue
+                if is_left:
+                    break               # true && X  =  X
+                cur = p                 # left was true already
+                continue
+            if val:
+                cur = p                 # true operand makes the || true
+                continue
+            if is_left:
+                break                   # false || X  =  X
+            cur = p
+        return (cur['i'], 1 if val else 0)
 
     def _lv(self, n):
         fn = self.fn
@@ -342,6 +393,19 @@ class CondTracker(object):
         pol = branch_polarity(self.fn, term, idx)
         if pol is None or cond is None:
             return facts
+        sc = self.short_circuit_value(term, pol)
+        if sc is not None:
+            facts = frozenset(facts) | {('sc', sc[0], sc[1])}
+        # a branch on a boolean that stands for the last operand of a chain
+        c0, p0 = normalise_cond(self.fn, cond, pol)
+        if c0 is not None and c0['k'] == 'ref':
+            for x in facts:
+                if isinstance(x, tuple) and len(x) == 3 and x[0] == 'last' and x[1] == c0['name']:
+                    new = self.implied(self.fn.nodes[x[2]], p0)
+                    if new is not None:
+                        if not self.consistent(facts, new):
+                            return None
+                        facts = frozenset(facts) | {new}
         new = self.implied(cond, pol)
         if new is None:
             return facts
@@ -353,6 +417,47 @@ class CondTracker(object):
 
     def on_step(self, n, facts):
         """kill facts about lvalues that n modifies"""
+        fn = self.fn
+        scs = [x for x in facts if isinstance(x, tuple) and len(x) == 3 and x[0] == 'sc']
+        if scs and (n['k'] == 'decl' or (n['k'] == 'bin' and n.get('op') == '=')):
+            # `x = A && B ...` reached through a short-circuit exit: x has that value
+            src = fn.kid(n, 0) if n['k'] == 'decl' else fn.kid(n, 1)
+            name = n.get('name') if n['k'] == 'decl' else None
+            if n['k'] == 'bin':
+                l = fn.kid(n, 0)
+                name = l['name'] if l is not None and l['k'] == 'ref' else None
+            while src is not None and src['k'] in ('cast', 'paren'):
+                src = fn.kid(src, 0)
+            facts = frozenset(x for x in facts if x not in scs)
+            if name and src is not None and name in self.tracked():
+                for x in scs:
+                    if x[1] == src['i']:
+                        facts = self.on_step_plain(n, facts)
+                        return frozenset(facts) | {('eq', name, x[2])}
+        if n['k'] == 'decl' or (n['k'] == 'bin' and n.get('op') == '='):
+            # `x = A && B && C` reached without a short-circuit exit: x is C
+            src = fn.kid(n, 0) if n['k'] == 'decl' else fn.kid(n, 1)
+            name = n.get('name') if n['k'] == 'decl' else None
+            if n['k'] == 'bin':
+                l = fn.kid(n, 0)
+                name = l['name'] if l is not None and l['k'] == 'ref' else None
+            while src is not None and src['k'] in ('cast', 'paren'):
+                src = fn.kid(src, 0)
+            if name and src is not None and src['k'] == 'bin' and src.get('op') in ('&&', '||') and \
+                    name in self.tracked():
+                leaf = src
+                while leaf is not None and leaf['k'] == 'bin' and leaf.get('op') in ('&&', '||'):
+                    leaf = fn.kid(leaf, 1)
+                    while leaf is not None and leaf['k'] in ('cast', 'paren'):
+                        leaf = fn.kid(leaf, 0)
+                facts = self.on_step_plain(n, facts)
+                facts = frozenset(x for x in facts if not (isinstance(x, tuple) and x[0] == 'last' and x[1] == name))
+                if leaf is not None:
+                    facts = facts | {('last', name, leaf['i'])}
+                return facts
+        return self.on_step_plain(n, facts)
+
+    def on_step_plain(self, n, facts):
         fn = self.fn
         tgt = None
         if n['k'] == 'bin' and n.get('op', '').endswith('=') and n['op'] not in ('==', '!=', '<=', '>='):
@@ -502,6 +607,50 @@ def error_propagated(fn, call):
             if imp[0] == 'ne':
                 return None if 'ok' in facts else facts | {'err'}
             return None if 'err' in facts else facts | {'ok'}
+        return facts
+    nb = fn.block_of(call)
+    explore(fn, set(), step, edge, start_block=nb[0], start_index=nb[1] + 1, max_states=256)
+    return (not bad), (bad[0] if bad else None)
+
+
+def error_not_lost(fn, call):
+    """The value of `call` (an error code, 0 = success) is not thrown away: it is returned,
+    or kept in a variable that is tested against 0 before that variable is assigned
+    again or the function ends without returning it.  Returns (True, None) or
+    (False, offending node)."""
+    h = value_holder(fn, call)
+    if h[0] in ('ret', 'expr'):
+        return True, None
+    if h[0] != 'var':
+        return False, h[1] if h[1] is not None else call
+    var, at = h[1], h[2]
+    ct = CondTracker(fn, extra=[var])
+    bad = []
+
+    def step(n, facts):
+        if n['k'] == 'bin' and n['op'].endswith('=') and n['op'] not in ('==', '!=', '<=', '>=') and n is not at:
+            l = fn.kid(n, 0)
+            if l is not None and l['k'] == 'ref' and l['name'] == var:
+                if 'tested' not in facts:
+                    bad.append(n)
+                return None
+        if n['k'] == 'ret':
+            if 'tested' not in facts:
+                e = fn.kid(n, 0) if n.get('c') else None
+                while e is not None and e['k'] in ('cast', 'paren'):
+                    e = fn.kid(e, 0)
+                if not (e is not None and e['k'] == 'ref' and e['name'] == var):
+                    bad.append(n)
+            return None
+        return facts
+
+    def edge(b, term, cond, idx, succ, facts):
+        pol = branch_polarity(fn, term, idx)
+        if pol is None or cond is None:
+            return facts
+        imp = ct.implied(cond, pol)
+        if imp is not None and imp[1] == var:
+            return frozenset(facts) | {'tested'}
         return facts
     nb = fn.block_of(call)
     explore(fn, set(), step, edge, start_block=nb[0], start_index=nb[1] + 1, max_states=256)
